@@ -220,8 +220,8 @@ func contains(xs []string, s string) bool {
 func FieldsFor(list string) []string {
 	var out []string
 	for _, f := range AllFieldNames() {
-		if f == "key" {
-			continue // keys are given with -k
+		if f == "key" && list == "exclude" {
+			continue // the kernel (and the library) refuse keys on the exclude list
 		}
 		if list == "exclude" && !excludeOK[f] {
 			continue
@@ -242,7 +242,11 @@ func GenFilter(r *mon.Rand, o *Opts, list, field string) Filter {
 	f := Filter{LHS: field, Field: uapi.Fields[field]}
 	if uapi.StringFields[f.Field] {
 		f.Str = true
-		f.RHS = randString(r, o, 4096)
+		max := 4096
+		if field == "key" {
+			max = 256 // AUDIT_MAX_KEY_LEN; a key may also be given as a filter (-F key=..., any operator)
+		}
+		f.RHS = randString(r, o, max)
 		f.Op = mon.Pick(r, AllOps)
 		if r.Chance(2, 3) {
 			f.Op = mon.Pick(r, eqOps)
